@@ -18,9 +18,10 @@ def run(R, tier, seed, only=None):
         import kchecks
         d = core.Driver(drv)
         kchecks.check_take(R, d, tier, want=("position",))
+        kchecks.check_take_step(R, d, tier)
         kchecks.check_lit(R, d, tier)
         d.close()
-        R.cov.setdefault("kernel_bounds", {}).update({"K-take": "k <= 2 (quick) / 3 (thorough) consecutive takes, bounds any i64 >= 1 or absent, positions 1 <= p < 2^62", "K-lit": "every i64"})
+        R.cov.setdefault("kernel_bounds", {}).update({"K-take": "k <= 2 consecutive takes end to end (range_of_ranges + LIMIT/OFFSET), bounds any i64 >= 1 or absent, positions 1 <= p < 2^62", "K-take-step": "one loop iteration from an arbitrary accumulated range: inductive step for any k", "K-lit": "every i64"})
     R.cov["bounds"] = {"rows_per_table": k, "value_range": "|v| <= 2^20", "targets": ["sql.sqlite", "sql.generic"], "family": families.family_c03.__doc__ or "ordered pipelines"}
     R.cov["functions_encoded"] = ["prqlc::compile per program; emitted SQL encoded by engines/symdb/sqlsem.py (binder + bag/sequence semantics)"]
     R.cov["trusted_base"] = propcheck.TRUSTED + ["rustc nightly MIR front end", "engines/mirsym (MIR interpreter + std models)"]
